@@ -153,13 +153,17 @@ def check(run, mod, args):
 			eng.registry = reg
 			eng.specns = base_specns
 			eng.lib = lib
+		n_before = len(eng.obligations)
 		try:
 			eng.verify_function(qual, inst, override)
 		except (Unsupported, CyFrontError, PathLimit) as e:
+			# the obligations generated for this target so far come from an incomplete set of paths: they say nothing
+			del eng.obligations[n_before:]
 			unsupported.append((eng.label_of(qual, inst), str(e)))
 			if args.v:
 				traceback.print_exc()
 		except Exception as e:
+			del eng.obligations[n_before:]
 			# a crash of the engine on this function (typically on changed code it was never run on): a machinery error for this
 			# target, but the remaining targets and the bounded run still take place (a replayed failing input is still a verdict)
 			run.machinery_errors.append(f'engine crashed on {eng.label_of(qual, inst)}: {type(e).__name__}: {e}')
